@@ -77,3 +77,19 @@ def replay(case):
     if v:
         return v
     return markov.replay_walk(case, adapter_cls=contagion.SimpleAdapter, rows=False)
+
+
+def research(case):
+    """Minimisation support: fresh seeded walks on a (reduced) case."""
+    import random
+    c = {k: v for k, v in case.items() if k != "prefix"}
+    for s in range(6):
+        ad = contagion.SimpleAdapter(c)
+        try:
+            v = walks.walk(ad, random.Random(s), 10, {}, lambda p: dict(c, prefix=[list(e) for e in p]),
+                           prefer=contagion.simple_prefer)
+        except Exception:
+            v = []
+        if v:
+            return v
+    return []
